@@ -7,6 +7,14 @@ CS = "impls::deduplicate::CollapseSequence"
 
 
 def r_collapse_push(F, R, cat=None):
+    """CollapseSequence::push, read through closures and Option combinators:
+      * exactly one equality test, between the pushed item and inner.index(last_index);
+      * the function returns either the remembered last_index or the result of inner.push(item);
+      * the remembered index is returned only where that test is known to have been true, and
+        nothing is written on that path;
+      * exactly one inner.push site, after which last_index = Some(its result)."""
+    from core import all_ctxs
+    from expr import ret_alts, expand, nobb, NONE
     cat = cat or Catalogue(F)
     bodies = [b for b in F.methods_of_trait("Push", "push") if b.self_adt == CS]
     R.floor("R-COLLAPSE", "CollapseSequence push impls", len(bodies), 1)
@@ -15,58 +23,68 @@ def r_collapse_push(F, R, cat=None):
         ctx, effs = cat.effects(b)
         last = ("place", b.key, ("arg", 1), ("f:last_index", "v:Some", "f:0"))
         inner = ("place", b.key, ("arg", 1), ("f:inner",))
+        whole = ("place", b.key, ("arg", 1), ())
         item = ("place", b.key, ("arg", 2), ())
-        # the equality test
-        eqs = [(bi, t) for (bi, t) in b.calls() if callee_tag(t.get("callee")) == ("PartialEq", "eq")]
-        ok_eq = False
-        eq_tree = None
-        for (bi, t) in eqs:
-            a0 = operand_tree(ctx, t["args"][0])
-            a1 = operand_tree(ctx, t["args"][1])
-            whole = ("place", b.key, ("arg", 1), ())
 
-            def is_prev(x):
-                return x[0] == "call" and x[1] == ("Region", "index") and x[2] in ((inner, last), (whole, last))
-            if (a0 == item and is_prev(a1)) or (a1 == item and is_prev(a0)):
-                ok_eq = True
-                eq_tree = (bi, t)
-        R.check("R-COLLAPSE", b.label(), ok_eq and len(eqs) == 1,
+        def is_prev(x):
+            return x[0] == "call" and x[1] == ("Region", "index") and tuple(x[2]) in ((inner, last), (whole, last))
+
+        def is_eq_tree(t):
+            return t[0] == "call" and t[1] == ("PartialEq", "eq") and len(t[2]) == 2 and (
+                (t[2][0] == item and is_prev(t[2][1])) or (t[2][1] == item and is_prev(t[2][0])))
+        # the equality test (possibly inside a closure handed to filter / map / is_some_and ..)
+        eqs = []
+        for c in all_ctxs(F, b):
+            for (bi, t) in c.body.calls():
+                if callee_tag(t.get("callee")) == ("PartialEq", "eq"):
+                    eqs.append(nobb(("call", ("PartialEq", "eq"),
+                                     (operand_tree(c, t["args"][0]), operand_tree(c, t["args"][1])), ())))
+        ok_eq = len(eqs) == 1 and is_eq_tree(eqs[0])
+        R.check("R-COLLAPSE", b.label(), ok_eq,
                 construct="compares the pushed item with inner.index(last_index)", where=b.where(),
-                detail="%d equality tests; operands %s" % (len(eqs), [
-                    (show(operand_tree(ctx, t["args"][0])), show(operand_tree(ctx, t["args"][1]))) for (_, t) in eqs]))
+                detail="%d equality tests; operands %s" % (len(eqs), [(show(e[2][0]), show(e[2][1])) for e in eqs]))
         # return values
-        rets = [tree(ctx, o) for o in ctx.org.local(0)]
+        rets = {nobb(t) for t in ret_alts(ctx) if t != NONE}
         pushes = [e for e in effs if e.tag == ("Push", "push") and ("inner", ()) in self_field_targets(e, ctx)]
-        ok_ret = len(rets) == 2 and last in rets and any(
-            t[0] == "call" and t[1] == ("Push", "push") and t[2] == (inner, item) for t in rets)
+
+        def is_push_result(t):
+            return t[0] == "call" and t[1] == ("Push", "push") and tuple(t[2]) == (inner, item) and not t[3]
+        ok_ret = last in rets and any(is_push_result(t) for t in rets) and \
+            all(t == last or is_push_result(t) for t in rets)
         R.check("R-COLLAPSE", b.label(), ok_ret,
                 construct="returns either the stored last_index or the result of inner.push(item)",
-                where=b.where(), detail="returns %s" % [show(t) for t in rets])
+                where=b.where(), detail="returns %s" % sorted(show(t) for t in rets))
         R.check("R-COLLAPSE", b.label(), len(pushes) == 1, construct="exactly one inner.push site",
                 where=b.where(), detail="%d" % len(pushes))
-        # early return lies on the == true edge and no write happens on it
+        # blocks that make the remembered index the result
         early = []
         for bi in sorted(b.live_blocks()):
-            for st in b.blocks[bi]["stmts"]:
+            for si, st in enumerate(b.blocks[bi]["stmts"]):
                 if st["k"] == "assign" and st["place"]["l"] == 0 and not st["place"]["p"]:
-                    v = trees(ctx, ctx.org.rvalue(st["rv"], bi, 0))
-                    if v == last:
+                    v = trees(ctx, ctx.org.rvalue(st["rv"], bi, si))
+                    alts = {nobb(x) for x in expand(F, v) if x != NONE}
+                    if alts == {last}:
                         early.append(bi)
         ok_early = bool(early)
         why = []
         for eb in early:
             facts = facts_at(ctx, eb)
-            on_true = any(f[0] == "truthy" and f[2] is True and f[1][0] == "call" and
-                          f[1][1] == ("PartialEq", "eq") for f in facts)
+            on_true = any(f[0] == "truthy" and f[2] is True and is_eq_tree(nobb(f[1])) for f in facts)
             if not on_true:
                 ok_early = False
                 why.append("collapse return at bb%d not on the equality-true edge" % eb)
             writes = [e for e in effs if e.cls in ("append", "assign", "destructive", "clear") and
                       self_field_targets(e, ctx) and
                       (e.top_bb == eb or eb in reach_strict(b, e.top_bb) or e.top_bb in reach_strict(b, eb))]
+            # Option::insert / replace on last_index is a write as well
+            for (bi, t) in b.calls():
+                if callee_tag(t.get("callee")) in (("Option", "insert"), ("Option", "replace"), ("Option", "take")) and \
+                        (bi == eb or eb in reach_strict(b, bi) or bi in reach_strict(b, eb)):
+                    writes.append(("call", callee_tag(t.get("callee"))[1], t.get("line")))
             if writes:
                 ok_early = False
-                why.append("writes on the collapse path: %s" % [(e.cls, e.tag[1], e.line) for e in writes])
+                why.append("writes on the collapse path: %s" % [
+                    (e.cls, e.tag[1], e.line) if hasattr(e, "cls") else e for e in writes])
         R.check("R-COLLAPSE", b.label(), ok_early,
                 construct="collapse path: only when equal, and it writes nothing",
                 where=b.where(), detail="; ".join(why) or "early-return blocks %s" % early)
@@ -79,6 +97,13 @@ def r_collapse_push(F, R, cat=None):
                         v[2][0][1] == ("Push", "push"):
                     if pushes and (e.top_bb in reach_strict(b, pushes[0].top_bb)):
                         ok_store = True
+        for (bi, t) in b.calls():
+            if callee_tag(t.get("callee")) in (("Option", "insert"), ("Option", "replace")) and len(t["args"]) == 2:
+                recv = nobb(operand_tree(ctx, t["args"][0]))
+                val = nobb(operand_tree(ctx, t["args"][1]))
+                if recv == ("place", b.key, ("arg", 1), ("f:last_index",)) and is_push_result(val) and pushes and \
+                        (bi == pushes[0].top_bb or bi in reach_strict(b, pushes[0].top_bb)):
+                    ok_store = True
         R.check("R-COLLAPSE", b.label(), ok_store,
                 construct="last_index = Some(result of inner.push) after the push",
                 where=b.where())
